@@ -134,12 +134,12 @@ template <class X> struct Runner {
             { LibScope ls; if (p.dflt) X::FreeUriMembers(&d); else X::FreeUriMembersMm(&d, ctl.mm()); }
             verdict(); return true; }
         case C_DISSECT: {
-            typename X::S w = widen<X>(p.a); QList* list = (QList*)(uintptr_t)0x10; int count = -5;
+            typename X::S w = widen<X>(p.a); QList* list = (QList*)(uintptr_t)0x10; int count = -5; int* cp = (p.flag & 2) ? nullptr : &count;   // the item count is optional
             ctl.arm(k, from);
-            { LibScope ls; rc = p.dflt ? X::DissectQueryMallocEx(&list, &count, w.data(), w.data() + w.size(), p.flag & 1, (UriBreakConversion)(p.mask & 3)) : X::DissectQueryMallocExMm(&list, &count, w.data(), w.data() + w.size(), p.flag & 1, (UriBreakConversion)(p.mask & 3), ctl.mm()); }
+            { LibScope ls; rc = p.dflt ? X::DissectQueryMallocEx(&list, cp, w.data(), w.data() + w.size(), p.flag & 1, (UriBreakConversion)(p.mask & 3)) : X::DissectQueryMallocExMm(&list, cp, w.data(), w.data() + w.size(), p.flag & 1, (UriBreakConversion)(p.mask & 3), ctl.mm()); }
             after("free list on success");
             if (rc == URI_SUCCESS) { LibScope ls; if (p.dflt) X::FreeQueryList(list); else X::FreeQueryListMm(list, ctl.mm()); }
-            else if (k > 0 && reached && count != 0) c->count("dissect_itemcount_nonzero_after_failure");
+            else if (k > 0 && reached && cp && count != 0) c->count("dissect_itemcount_nonzero_after_failure");
             verdict(); return true; }
         case C_COMPOSE: {
             // build the list in harness memory
@@ -201,7 +201,7 @@ static void run_case(Ctx& c, uint64_t idx) {
     case C_INPLACE_ON_RESULT: { p.flag = (int)r.below(4); p.mask = r.coin() ? 0u : (r.coin() ? 63u : r.below(64));
         if (p.flag & 2) { o.scheme = 1; p.a = valid_uri(r, o); p.b = r.coin() ? gen_abs_base(r) : mutate(r, p.a, 1); } else { p.a = valid_uri(r, o); p.b = gen_abs_base(r); }
         size_t e; if (!dfa_uriref(p.b, &e)) p.b = "s://h/a/b/c"; } break;
-    case C_DISSECT: { int n = r.range(0, 6); for (int i = 0; i < n; i++) { if (i) p.a += '&'; p.a += gen_string(r, 6); if (r.coin()) { p.a += '='; p.a += gen_string(r, 6); } } for (auto& ch : p.a) if (ch == 0) ch = 'x'; p.flag = (int)r.below(2); p.mask = r.below(4); } break;
+    case C_DISSECT: { int n = r.range(0, 6); for (int i = 0; i < n; i++) { if (i) p.a += '&'; p.a += gen_string(r, 6); if (r.coin()) { p.a += '='; p.a += gen_string(r, 6); } } for (auto& ch : p.a) if (ch == 0) ch = 'x'; p.flag = (int)r.below(4); p.mask = r.below(4); } break;
     default: { int n = r.range(1, 5); for (int i = 0; i < n; i++) { QItem it; it.key = gen_string(r, 6); it.hasValue = r.coin(); it.value = gen_string(r, 6); p.items.push_back(it); p.a += it.key + "=" + it.value + "&"; } p.flag = (int)r.below(4); } break;
     }
     // now and then one component made of 16 .. 100 decodable triplets (a copy that shrinks a lot when repaired)
